@@ -23,13 +23,15 @@ def run(ctx):
         "error outside int64 — modelled, compared on generated spellings",
         "container/heap (Go standard library): up/down/Push/Remove modelled explicitly, compared on the real package",
         "time.Time arithmetic (Add, Sub, UnixNano) is exact integer nanosecond arithmetic for the values used",
-        "Go memory model: each Channel critical section is atomic; the model is one step per API call",
+        "Go memory model: each Channel critical section is atomic; the atomic model is one step per API call (an abstraction; "
+        "the windows inside a call are Props.C04Micro on ChanMicroT, which no driver replays)",
         "correspondence harnesses harness/e1/num_test.go, harness/e1/timing_test.go (white-box clock read-back)",
     ]
     ctx.assumptions += [
         "C04_range_full: max-req-timeout is not the largest representable duration 2^63-1 ns (~292 years); "
         "for that value DPUB's saturating conversion accepts any larger 64-bit millisecond count with delay "
-        "2^63-1 ns (theorem dpub_saturation_corner) and the HTTP part needs max-req-timeout >= 0",
+        "2^63-1 ns (theorem dpub_saturation_corner) and the HTTP part needs max-req-timeout >= 0 (hypothesis hpos); "
+        "non-digit spellings are refused on TCP only - HTTP defer= accepts strconv.ParseInt's spellings ('+5')",
         "setMsgTimeout_range: max-msg-timeout >= 0",
         "touch_cap: the initial in-flight timeout of a delivery is <= max-msg-timeout: guaranteed for a negotiated "
         "msg_timeout (setMsgTimeout_range); for the daemon default only once nsqd.New compares the two options "
@@ -37,8 +39,8 @@ def run(ctx):
         "PARTIAL (lateness): with more than QueueScanSelectionCount (20) channels the per-tick selection "
         "is random, so 'soon after' is statistical; wall-clock lateness also depends on the Go timer and "
         "scheduler. Proved instead: a scan at or after the deadline releases the entry "
-        "(released_by_first_scan_after_deadline) and every channel is scanned each tick when there "
-        "are at most 20 (uniqRands_perm)",
+        "(released_by_first_scan_after_deadline) and every channel (satisfying ChanInv) is scanned in each round of the "
+        "scan loop when there are at most 20 (every_channel_scanned_each_tick, uniqRands_perm; whole tick: C04Live)",
         "PARTIAL (lateness): queueScanLoop scans a cached channel list refreshed every QueueScanRefreshInterval "
         "(5 s by default): a channel created since the last refresh waits for the next one (measured: ~5 s late "
         "with the defaults; harness/e1 TestVerifWallClock, VERIF_WALL_DEFAULT_REFRESH=1)",
@@ -46,7 +48,8 @@ def run(ctx):
         "spills to the topic's disk queue loses it (nsqd/topic.go put)",
         "never_early_micro_fixed (scan iteration at critical-section granularity, after fix F16): deliveries come "
         "from the channel's queue and message ids are unique (no other message with the same id is published "
-        "meanwhile); the pre-fix two-section shape is refuted by never_early_micro_false",
+        "meanwhile: the popped id is neither queued nor deferred and no defer of it runs in between), the channel satisfies "
+        "ChanInv; the pre-fix two-section shape is refuted by never_early_micro_false",
         "an empty delay argument on TCP (`REQ id ` / `DPUB topic `) is the empty digit string and reads as 0",
         "C04Live (tick-count lateness, whole tick of queueScanLoop incl. the dirty loop): clock readings and the math/rand "
         "stream are inputs; <= 20 channels: released by the first tick whose first round reads the clock at/after the "
